@@ -77,3 +77,37 @@ fn close_delivers_outstanding_ping_then_removes() {
     assert!(t.elapsed() >= Duration::from_millis(90), "a closed ping source keeps the loop spinning");
     assert_eq!(n, 1);
 }
+
+#[test]
+fn ping_from_inside_the_callback_is_delivered() {
+    // ping; dispatch { the callback pings again }; dispatch => the second callback must run
+    let mut el: EventLoop<u64> = EventLoop::try_new().unwrap();
+    let (ping, src) = make_ping().unwrap();
+    let p2 = ping.clone();
+    el.handle().insert_source(src, move |_, _, n| { *n += 1; if *n < 3 { p2.ping(); } }).unwrap();
+    ping.ping();
+    let mut n = 0u64;
+    for _ in 0..4 { el.dispatch(Duration::from_millis(50), &mut n).unwrap(); }
+    assert_eq!(n, 3, "a ping issued while the callback was running was swallowed");
+}
+
+#[test]
+fn ping_from_another_thread_during_the_callback_is_delivered() {
+    use std::sync::mpsc;
+    let mut el: EventLoop<u64> = EventLoop::try_new().unwrap();
+    let (ping, src) = make_ping().unwrap();
+    let (req_tx, req_rx) = mpsc::channel::<()>();
+    let (ack_tx, ack_rx) = mpsc::channel::<()>();
+    let p2 = ping.clone();
+    let th = std::thread::spawn(move || { while req_rx.recv().is_ok() { p2.ping(); let _ = ack_tx.send(()); } });
+    el.handle().insert_source(src, move |_, _, n: &mut u64| {
+        *n += 1;
+        if *n < 3 { req_tx.send(()).unwrap(); ack_rx.recv_timeout(Duration::from_secs(2)).unwrap(); } // the other thread's ping() has returned
+    }).unwrap();
+    ping.ping();
+    let mut n = 0u64;
+    for _ in 0..4 { el.dispatch(Duration::from_millis(50), &mut n).unwrap(); }
+    assert_eq!(n, 3, "a ping that returned while the callback was running got no callback of its own");
+    drop(el);
+    let _ = th;
+}
